@@ -423,6 +423,12 @@ fn unchanged(before: &Observation, after: &Observation, what: &str, at: &str, o:
 pub fn run_service(case: &Case, ctx: &RunCtx, st: &mut ModelState, o: &mut Outcome) {
     begin_case(1);
     let dir = ctx.case_dir("svc");
+    // the instances are dropped when the inner function returns, then the directory goes
+    run_service_in(case, &dir, st, o);
+    let _ = std::fs::remove_dir_all(&dir);
+}
+
+fn run_service_in(case: &Case, dir: &std::path::Path, st: &mut ModelState, o: &mut Outcome) {
     let mut svc = Svc::new("a", dir.join("a"));
     let mut rows: Vec<RefRow> = vec![];
     let trace = std::env::var("C15_TRACE").is_ok();
@@ -461,7 +467,8 @@ pub fn run_service(case: &Case, ctx: &RunCtx, st: &mut ModelState, o: &mut Outco
         let old_model = st.cur.clone();
         let old_text = st.cur_text.clone();
         let rep = st.apply(&cand, o);
-        if rep.stop && !rep.hashmap_finding {
+        if rep.stop {
+            o.label("stopped-early");
             return;
         }
         if decision != rep.accepted {
@@ -520,8 +527,6 @@ pub fn run_service(case: &Case, ctx: &RunCtx, st: &mut ModelState, o: &mut Outco
                         format!("{}: the service numbered the new fields {:?} differently from the declaration order and from other peers; {}; version:\n{}", at, mm, restart, cand.text),
                     );
                     o.label("service:stopped-after-hashmap-order-finding");
-                    svc.stop();
-                    let _ = std::fs::remove_dir_all(&dir);
                     return;
                 } else {
                     o.violation("ids-differ-from-fresh-install", format!("{}: service: {:?}\n{}", at, mm, cand.text));
@@ -672,8 +677,6 @@ pub fn run_service(case: &Case, ctx: &RunCtx, st: &mut ModelState, o: &mut Outco
             }
         }
         if !ok {
-            let mm: Vec<(String, Option<String>)> = vec![];
-            let _ = mm;
             if st.multi_added.is_empty() {
                 o.violation("second-instance-refuses-accepted-sequence", format!("{:?}", st.accepted_texts));
             } else {
@@ -694,7 +697,6 @@ pub fn run_service(case: &Case, ctx: &RunCtx, st: &mut ModelState, o: &mut Outco
         other.stop();
     }
     svc.stop();
-    let _ = std::fs::remove_dir_all(&dir);
 }
 
 fn svc_restart_error_kind(persisted_raw: &str, text: &str) -> String {
